@@ -27,11 +27,11 @@ theorem locusPrior_shape (h : locusPrior r tag filter = .ok P) :
     P.keep.length = r.nAlts + 1 ∧ P.keep.head? = some true ∧
     P.raw.length = (P.keep.filter id).length ∧ 1 ≤ P.raw.length ∧
     ∀ fs, P.freqs = some fs → fs.length = P.raw.length := by
-  obtain ⟨keep, m, vals, o, i, hk, hf, hfin⟩ := locusPrior_inv h
+  obtain ⟨keep, m, vals, hk, hf, rfl⟩ := locusPrior_inv h
   obtain ⟨hklen, hkhead, _, _⟩ := filterKeep_inv hk
   obtain ⟨hvlen, _, _⟩ := frequencyArray_inv hf
-  obtain ⟨rfl, rfl, _, hraw, hfr⟩ := finishPrior_inv hfin
-  have hmlen : (maskedVals P.maskRef vals).length = vals.length := by
+  obtain ⟨hkeep, hmask, _, hraw, hfr⟩ := finishPrior_spec keep m vals
+  have hmlen : (maskedVals m vals).length = vals.length := by
     unfold maskedVals; split <;> simp
   have hsel : ∀ (xs : List (Option ℚ)) (ks : List Bool), xs.length = ks.length →
       (select xs ks).length = (ks.filter id).length := by
@@ -46,52 +46,67 @@ theorem locusPrior_shape (h : locusPrior r tag filter = .ok P) :
         cases k
         · rw [select_cons_false]; simpa using ih ks (by simpa using hl)
         · rw [select_cons_true]; simpa using ih ks (by simpa using hl)
-  have hrl : P.raw.length = (P.keep.filter id).length := by
+  have hrl : (finishPrior keep m vals).raw.length = (keep.filter id).length := by
     rw [hraw, List.length_map, hsel _ _ (by rw [hmlen, hvlen, hklen])]
+  rw [hkeep]
   refine ⟨hklen, hkhead, hrl, ?_, ?_⟩
   · rw [hrl]
-    cases hkeep : P.keep with
-    | nil => simp [hkeep] at hkhead
+    cases hkeep' : keep with
+    | nil => simp [hkeep'] at hkhead
     | cons b t =>
-      simp only [hkeep, List.head?_cons, Option.some.injEq] at hkhead
+      simp only [hkeep', List.head?_cons, Option.some.injEq] at hkhead
       subst hkhead; simp
   · intro fs hfs
     rw [hfr] at hfs
-    rw [(normalise_some hfs).2.1]; simp
+    split at hfs
+    · exact absurd hfs (by simp)
+    · rw [(normalise_some hfs).2.1]; simp
 
 /-- **Prior frequencies.** The reported frequencies are the retained raw values rescaled by their sum:
-    they sum to one and keep the ratios of the INFO values; the all-NaN vector arises exactly when the
-    retained values do not have a positive sum. -/
+    they sum to one and keep the ratios of the INFO values; the all-NaN vector arises exactly when a retained
+    value is missing or the retained values do not have a positive sum. -/
 theorem freq_normalised (h : locusPrior r tag filter = .ok P) :
     (∀ fs, P.freqs = some fs →
-        0 < sumRat P.raw ∧ sumRat fs = 1 ∧ fs = P.raw.map (· / sumRat P.raw)) ∧
-    (P.freqs = none ↔ sumRat P.raw ≤ 0) := by
-  obtain ⟨keep, m, vals, o, i, _, _, hfin⟩ := locusPrior_inv h
-  obtain ⟨_, _, _, _, hfr⟩ := finishPrior_inv hfin
+        P.nanRaw = false ∧ 0 < sumRat P.raw ∧ sumRat fs = 1 ∧ fs = P.raw.map (· / sumRat P.raw)) ∧
+    (P.freqs = none ↔ P.nanRaw = true ∨ sumRat P.raw ≤ 0) := by
+  obtain ⟨keep, m, vals, _, _, rfl⟩ := locusPrior_inv h
+  obtain ⟨_, _, _, _, hfr⟩ := finishPrior_spec keep m vals
   constructor
   · intro fs hfs
     rw [hfr] at hfs
-    obtain ⟨h1, h2, h3⟩ := normalise_some hfs
-    exact ⟨h1, h3, h2⟩
-  · rw [hfr]; exact normalise_eq_none
+    split at hfs
+    · exact absurd hfs (by simp)
+    · rename_i hn
+      obtain ⟨h1, h2, h3⟩ := normalise_some hfs
+      exact ⟨by simpa using hn, h1, h3, h2⟩
+  · rw [hfr]
+    split
+    · rename_i hn; simp [hn]
+    · rename_i hn
+      have : (finishPrior keep m vals).nanRaw = false := by simpa using hn
+      rw [normalise_eq_none]; simp [this]
 
-/-- the raw values are the named INFO values (or the flat `1/n`), with the masked reference set to zero,
-    restricted to the retained alleles; none of them is missing -/
+/-- the raw values are the named INFO values (Integer or Float alike; or the flat `1/n`), with the masked
+    reference set to zero, restricted to the retained alleles; `nanRaw` says that one of them is missing -/
 theorem raw_is_named_info (h : locusPrior r tag filter = .ok P) :
     ∃ vals : List (Option ℚ),
       (∀ t, tag = some t → t ≠ "" → ∃ f, findField r t = some f ∧ f.values = some vals) ∧
       ((tag = none ∨ tag = some "") →
           vals = List.replicate (r.nAlts + 1) (some (1 / ((r.nAlts + 1 : ℕ) : ℚ)))) ∧
-      P.raw.map some = select (maskedVals P.maskRef vals) P.keep := by
-  obtain ⟨keep, m, vals, o, i, _, hf, hfin⟩ := locusPrior_inv h
+      P.nanRaw = (select (maskedVals P.maskRef vals) P.keep).any Option.isNone ∧
+      P.raw = (select (maskedVals P.maskRef vals) P.keep).map (fun x => x.getD 0) ∧
+      (P.nanRaw = false → P.raw.map some = select (maskedVals P.maskRef vals) P.keep) := by
+  obtain ⟨keep, m, vals, _, hf, rfl⟩ := locusPrior_inv h
   obtain ⟨_, hflat, htag⟩ := frequencyArray_inv hf
-  obtain ⟨rfl, rfl, hnone, hraw, _⟩ := finishPrior_inv hfin
-  refine ⟨vals, htag, hflat, ?_⟩
-  rw [hraw, List.map_map]
-  conv_rhs => rw [← List.map_id (select (maskedVals P.maskRef vals) P.keep)]
+  refine ⟨vals, htag, hflat, rfl, rfl, ?_⟩
+  intro hnone
+  have hnone' : (select (maskedVals m vals) keep).any Option.isNone = false := hnone
+  show ((select (maskedVals m vals) keep).map (fun x => x.getD 0)).map some = select (maskedVals m vals) keep
+  rw [List.map_map]
+  conv_rhs => rw [← List.map_id (select (maskedVals m vals) keep)]
   apply List.map_congr_left
   intro x hx
-  have hx' := List.any_eq_false.mp hnone x hx
+  have hx' := List.any_eq_false.mp hnone' x hx
   cases x with
   | none => simp at hx'
   | some y => simp
@@ -110,8 +125,9 @@ theorem filter_removes_exactly_failing_alts {fs : String} {f : Filter} {fld : In
     (hf : findField r f.field = some fld) (ho : fld.values = some obs) :
     ∀ i, 1 ≤ i → i ≤ r.nAlts →
       ∃ x, altObservation fld obs i = some x ∧ cmpObs f.op f.value x = .ok (P.keep.getD i false) := by
-  obtain ⟨keep, m, vals, o, i', hk, _, hfin⟩ := locusPrior_inv h
-  obtain ⟨rfl, _, _, _, _⟩ := finishPrior_inv hfin
+  obtain ⟨keep, m, vals, hk, _, rfl⟩ := locusPrior_inv h
+  show ∀ i, 1 ≤ i → i ≤ r.nAlts →
+      ∃ x, altObservation fld obs i = some x ∧ cmpObs f.op f.value x = .ok (keep.getD i false)
   obtain ⟨_, _, _, hsome⟩ := filterKeep_inv hk
   obtain ⟨f', keep0, hp', ha, hkeep, _⟩ := hsome fs rfl
   rw [hp] at hp'
@@ -120,7 +136,7 @@ theorem filter_removes_exactly_failing_alts {fs : String} {f : Filter} {fld : In
   obtain ⟨fld', hf', hcase⟩ := applyAlleleFilter_inv ha
   rw [hf] at hf'
   cases hf'
-  have hget : P.keep.getD i false = keep0.getD i false := by
+  have hget : keep.getD i false = keep0.getD i false := by
     rw [hkeep]
     cases keep0 with
     | nil => cases i <;> simp at hi1 ⊢
@@ -163,8 +179,7 @@ theorem failing_ref_masked_not_removed (h : locusPrior r tag filter = .ok P) :
     (∀ fs, filter = some fs → ∃ f keep0, parseAlleleFilter fs = .ok f ∧
         applyAlleleFilter r f.field f.op f.value = .ok keep0 ∧
         P.maskRef = (r.refMasked || !keep0.headD true) ∧ P.keep.tail = keep0.tail) := by
-  obtain ⟨keep, m, vals, o, i, hk, _, hfin⟩ := locusPrior_inv h
-  obtain ⟨rfl, rfl, _, _, _⟩ := finishPrior_inv hfin
+  obtain ⟨keep, m, vals, hk, _, rfl⟩ := locusPrior_inv h
   obtain ⟨_, hhead, hnone, hsome⟩ := filterKeep_inv hk
   refine ⟨hhead, fun hn => (hnone hn).2, ?_⟩
   intro fs hfs
@@ -174,19 +189,19 @@ theorem failing_ref_masked_not_removed (h : locusPrior r tag filter = .ok P) :
 /-- a masked reference has raw value (hence prior) zero -/
 theorem masked_ref_zero_prior (h : locusPrior r tag filter = .ok P) (hm : P.maskRef = true) :
     P.raw.head? = some 0 := by
-  obtain ⟨keep, m, vals, o, i, hk, hf, hfin⟩ := locusPrior_inv h
+  obtain ⟨keep, m, vals, hk, hf, rfl⟩ := locusPrior_inv h
   obtain ⟨hklen, hkhead, _, _⟩ := filterKeep_inv hk
   obtain ⟨hvlen, _, _⟩ := frequencyArray_inv hf
-  obtain ⟨rfl, rfl, _, hraw, _⟩ := finishPrior_inv hfin
-  rw [hraw]
-  cases hkeep : P.keep with
+  have hm' : m = true := hm
+  show ((select (maskedVals m vals) keep).map (fun x => x.getD 0)).head? = some 0
+  cases hkeep : keep with
   | nil => simp [hkeep] at hkhead
   | cons b t =>
     simp only [hkeep, List.head?_cons, Option.some.injEq] at hkhead
     subst hkhead
     cases hvals : vals with
     | nil => simp [hvals] at hvlen
-    | cons v vs => simp [maskedVals, hm, select_cons_true]
+    | cons v vs => simp [maskedVals, hm', select_cons_true]
 
 /-- **Masked alleles are never called.** Whatever genotype the sampler returns over the sub-set of
     haplotypes it was given, its relabelled alleles are record alleles that are neither the masked reference
@@ -243,7 +258,7 @@ theorem unmasked_positive_prior (h : locusPrior r tag filter = .ok P) :
 
 theorem callLabels_nonempty_of_freqs (h : locusPrior r tag filter = .ok P) {fs : List ℚ}
     (hfs : P.freqs = some fs) : callLabels P ≠ [] := by
-  obtain ⟨⟨hpos, _, hmap⟩, _⟩ := (freq_normalised h).1 fs hfs, (freq_normalised h).2
+  obtain ⟨_, hpos, _, hmap⟩ := (freq_normalised h).1 fs hfs
   obtain ⟨x, hx, hx0⟩ := sumRat_pos_exists hpos
   obtain ⟨a, ha, rfl⟩ := List.getElem_of_mem hx
   have hmem : a ∈ callLabels P := by
@@ -274,7 +289,7 @@ theorem call_exact_same_scenario (h : locusPrior r tag filter = .ok P) :
   cases hfs : P.freqs with
   | some fs =>
     have hne := callLabels_nonempty_of_freqs h hfs
-    have hpos := ((freq_normalised h).1 fs hfs).1
+    have hpos := ((freq_normalised h).1 fs hfs).2.1
     have hex : ¬ (P.maskRef = true ∧ P.raw.length = 1) := by
       rintro ⟨hm, hl⟩
       have h0 := masked_ref_zero_prior h hm
@@ -321,30 +336,35 @@ theorem call_exact_same_scenario (h : locusPrior r tag filter = .ok P) :
         | cons _ _ => rfl
       simp [callScenario, exactScenario, hne', hm', hfs]
 
-/-- **No usable allele.** The record is processed normally exactly when the retained values have a positive
-    sum; otherwise it takes the NOA / AF0 branch (missing calls, no sampler run). In particular a record whose
-    retained alleles all have value zero — or whose only allele is the masked reference — is never sampled.
-    With non-negative values "positive sum" is "some retained allele has a positive value". -/
+/-- **No usable allele.** The record is processed normally exactly when no retained value is missing and the
+    retained values have a positive sum; otherwise it takes the NOA / AF0 branch (missing calls, no sampler
+    run). In particular a record whose retained alleles all have value zero — or whose only allele is the masked
+    reference — is never sampled. With non-negative values "positive sum" is "some retained allele has a
+    positive value". -/
 theorem no_usable_allele_is_filtered (h : locusPrior r tag filter = .ok P) :
-    (callScenario P = .valid ↔ 0 < sumRat P.raw) ∧
-    (exactScenario P = .valid ↔ 0 < sumRat P.raw) ∧
+    (callScenario P = .valid ↔ P.nanRaw = false ∧ 0 < sumRat P.raw) ∧
+    (exactScenario P = .valid ↔ P.nanRaw = false ∧ 0 < sumRat P.raw) ∧
     ((∀ x ∈ P.raw, x = 0) → callScenario P ≠ .valid) ∧
-    ((∀ x ∈ P.raw, 0 ≤ x) → (callScenario P = .valid ↔ ∃ x ∈ P.raw, 0 < x)) ∧
+    ((∀ x ∈ P.raw, 0 ≤ x) → (callScenario P = .valid ↔ P.nanRaw = false ∧ ∃ x ∈ P.raw, 0 < x)) ∧
     (callScenario P = .noa ↔ P.maskRef = true ∧ P.raw.length = 1) := by
   have hsame := call_exact_same_scenario h
-  have hvalid : callScenario P = .valid ↔ 0 < sumRat P.raw := by
+  have hvalid : callScenario P = .valid ↔ P.nanRaw = false ∧ 0 < sumRat P.raw := by
     cases hfs : P.freqs with
     | some fs =>
       have hne := callLabels_nonempty_of_freqs h hfs
-      have hpos := ((freq_normalised h).1 fs hfs).1
+      obtain ⟨hnan, hpos, _, _⟩ := (freq_normalised h).1 fs hfs
       have hne' : (callLabels P).isEmpty = false := by
         cases hc : callLabels P with
         | nil => exact absurd hc hne
         | cons _ _ => rfl
-      simp [callScenario, hne', hfs, hpos]
+      simp [callScenario, hne', hfs, hpos, hnan]
     | none =>
       have hle := (freq_normalised h).2.mp hfs
-      have : ¬ 0 < sumRat P.raw := not_lt.mpr hle
+      have : ¬ (P.nanRaw = false ∧ 0 < sumRat P.raw) := by
+        rintro ⟨h1, h2⟩
+        rcases hle with h3 | h3
+        · rw [h1] at h3; cases h3
+        · exact absurd h2 (not_lt.mpr h3)
       simp only [this, iff_false]
       unfold callScenario
       split
@@ -352,12 +372,12 @@ theorem no_usable_allele_is_filtered (h : locusPrior r tag filter = .ok P) :
       · simp [hfs]
   refine ⟨hvalid, hsame ▸ hvalid, ?_, ?_, ?_⟩
   · intro hz hv
-    have := hvalid.mp hv
+    have := (hvalid.mp hv).2
     rw [sumRat_zero_of_all_zero hz] at this
     exact lt_irrefl _ this
   · intro hnn
     rw [hvalid]
-    exact ⟨sumRat_pos_exists, sumRat_pos_of_nonneg hnn⟩
+    exact and_congr_right (fun _ => ⟨sumRat_pos_exists, sumRat_pos_of_nonneg hnn⟩)
   · rw [hsame]
     unfold exactScenario
     by_cases hc : (P.maskRef && P.raw.length == 1) = true
@@ -372,11 +392,26 @@ theorem no_usable_allele_is_filtered (h : locusPrior r tag filter = .ok P) :
         apply hc
         simpa using hx
 
-/-! ### length of the reported arrays (candidate defect F4) -/
+/-! ### length of the reported arrays -/
 
-/-- **Partial.** After `relabel` the trace believes it has `labels.max()+1` alleles.  That is the number of
-    retained record alleles exactly when the highest-numbered retained allele is not masked. -/
-theorem arrays_have_record_length_partial (hne : callLabels P ≠ []) :
+/-- **Array length (program path).** `call` / `call-pedigree` relabel with `n_allele = len(haplotypes)`: the
+    relabelled trace has one slot per retained record allele (= 1 + number of ALTs printed), every relabelled
+    allele indexes inside it, and so does the per-allele summary (AFP / ACP / AOP) of any trace. -/
+theorem arrays_have_record_length (h : locusPrior r tag filter = .ok P) :
+    callNAllele P = P.raw.length ∧ callNAllele P = (P.keep.filter id).length ∧
+    (∀ trace, (posteriorCounts (callNAllele P) trace).length = (P.keep.filter id).length) ∧
+    (∀ g g', relabel (callLabels P) g = some g' → ∀ a ∈ g', a < callNAllele P) := by
+  have hlen := (locusPrior_shape h).2.2.1
+  refine ⟨rfl, hlen, ?_, ?_⟩
+  · intro trace
+    simp only [posteriorCounts, List.length_map, List.length_range]
+    exact hlen
+  · intro g g' hg a ha
+    exact (mem_callLabels.mp (relabel_mem hg a ha)).1
+
+/-- **Default of `relabel`.** Without `n_allele` the trace believes it has `labels.max()+1` alleles.  That is the
+    number of retained record alleles exactly when the highest-numbered retained allele is not masked. -/
+theorem relabel_default_n_allele_iff (hne : callLabels P ≠ []) :
     relabelNAllele (callLabels P) = P.raw.length ↔ maskAt P (P.raw.length - 1) = false := by
   unfold relabelNAllele
   have hall : ∀ a ∈ callLabels P, a < P.raw.length := fun a ha => (mem_callLabels.mp ha).1
@@ -405,12 +440,13 @@ theorem arrays_have_record_length_partial (hne : callLabels P ≠ []) :
     have h2 := hall _ hmem
     omega
 
-/-- machine-checked counter-example: three retained alleles, the last with zero prior — the sampler sees
-    labels `[0, 1]` and the relabelled trace reports 2 alleles instead of 3 -/
+/-- machine-checked counter-example for the default: three retained alleles, the last with zero prior — the
+    sampler sees labels `[0, 1]`, `relabel(labels)` alone would report 2 alleles, the program path reports 3 -/
 theorem relabel_n_allele_counterexample :
-    let P : LocusPriorM := { keep := [true, true, true], maskRef := false, raw := [1, 1, 0],
+    let P : LocusPriorM := { keep := [true, true, true], maskRef := false, raw := [1, 1, 0], nanRaw := false,
                              freqs := some [1/2, 1/2, 0] }
-    callLabels P = [0, 1] ∧ callScenario P = .valid ∧ relabelNAllele (callLabels P) = 2 ∧ P.raw.length = 3 := by
+    callLabels P = [0, 1] ∧ callScenario P = .valid ∧ relabelNAllele (callLabels P) = 2 ∧ P.raw.length = 3 ∧
+      callNAllele P = 3 := by
   decide +kernel
 
 /-! ### non-vacuity and concrete instances -/
@@ -446,11 +482,19 @@ example : parseAlleleFilter "AF=1,5" = .error .nonNumeric := by decide +kernel
 example : parseAlleleFilter "AF>1\n" = .ok { field := "AF", op := .gt, value := 1, isInt := true } := by decide +kernel
 example : parseAlleleFilter "AF=<1" = .error .invalidFilter := by decide +kernel
 
-/-- the integer-dtype branch: an Integer INFO field as frequency tag raises -/
+/-- an Integer INFO field as frequency tag is normalised like a Float one -/
 example :
     let r : RecordM := RecordM.mk 1 false
       [InfoField.mk "IR" .R true (some [some 1, some 2])]
-    (locusPrior r (some "IR") none).toOption.isNone = true := by
+    (locusPrior r (some "IR") none).toOption.map (·.freqs) = some (some [1/3, 2/3]) := by
+  decide +kernel
+
+/-- a missing entry among the retained frequency values gives the all-NaN prior (AF0), not an exception -/
+example :
+    let r : RecordM := RecordM.mk 1 false
+      [InfoField.mk "PF" .R false (some [some 1, none])]
+    (locusPrior r (some "PF") none).toOption.map (fun P => (P.nanRaw, P.freqs, callScenario P))
+      = some (true, none, .af0) := by
   decide +kernel
 
 end MCHap.C16
